@@ -2,8 +2,10 @@
 # usage: findings/run.sh <file_test.go> <TestName> [repo]  — runs one scenario replay against the real code via -overlay
 f=$(readlink -f "$1"); t="$2"; repo="${3:-/repo}"
 pkg=.
+race=
+case "$(basename "$f")" in *_race_*) race=-race;; esac
 case "$(basename "$f")" in commit_*) pkg=./commit;; esac
 tmp=$(mktemp -d); trap 'rm -rf "$tmp"' EXIT
 dst="$repo/zz_verif_finding_test.go"; [ "$pkg" = "./commit" ] && dst="$repo/commit/zz_verif_finding_test.go"
 printf '{"Replace": {"%s": "%s"}}' "$dst" "$f" > "$tmp/ov.json"
-cd "$repo" && GOFLAGS=-mod=mod GOPROXY=off GOSUMDB=off GOTOOLCHAIN=local go test -overlay "$tmp/ov.json" -vet=off -count=1 -timeout 120s -run "^$t\$" $pkg 2>&1
+cd "$repo" && GOFLAGS=-mod=mod GOPROXY=off GOSUMDB=off GOTOOLCHAIN=local go test $race -overlay "$tmp/ov.json" -vet=off -count=1 -timeout 120s -run "^$t\$" $pkg 2>&1
